@@ -155,7 +155,7 @@ PROPS["C10"] = {
     "level_note": "Termination ('never hangs') is proved of a step-level protocol model of a scanning phase (Model/Pipeline, Model/Pipeline3: feeder goroutine, pipeline stages with bounded OS pipes and unbuffered channels, git processes that may die at any moment, stages that may reject any line, the consumer's Next loop / Wait / <-errChan) for every number of roots, listed objects and pipe capacities: `scan_phase_no_deadlock`, `scan_phase_returns`, `batch_phase_never_hangs`, `reference_phase_never_hangs`; the order of seeded change C10h is shown to deadlock in the same model (`feeder_first_deadlocks`). Partial: the model's reading of Go channels, go-pipe (a stage that ends closes both of its ends) and the OS (EPIPE, EOF) is trusted and tied to the code by the pinned statement lists, the pinned stage table and the fault engine with a 20 s hang timeout; time, scheduler fairness beyond 'an enabled step is eventually taken' and signals to git-sizer itself are not modelled. A subprocess that truncates its output but exits 0 is outside the property (indistinguishable from a smaller repository) and is not judged. Invalid options / ROOTs are covered by the opts engine (C14).",
     "technique": "Lean 4 proof on a protocol model + fault enumeration against the real binary",
     "modules": ["GitSizer.Props.C10"],
-    "engines": [{"name": "fault", "quick": 480, "thorough": 24000, "per_shard": 30}, {"name": "opts", "quick": 160, "thorough": 8000, "per_shard": 10}],
+    "engines": [{"name": "addr", "quick": 48, "thorough": 2400, "per_shard": 3}, {"name": "fault", "quick": 480, "thorough": 24000, "per_shard": 30}, {"name": "opts", "quick": 160, "thorough": 8000, "per_shard": 10}],
     "rule": "generated real repositories x selections x one fault per run (target invocation, delivered permille, line alignment, exit status, kill) or one removed object; non-trivial = the targeted invocation actually ran and the fault is a failure in the sense of the property (trivial: target never invoked, lying truncation, unreachable/built-in object removed).",
     "assumptions": ["a git subprocess signals failure through its exit status or a signal"],
 }
@@ -199,7 +199,7 @@ NOT_APPLICABLE = {p: "check under construction in this commit; see DESIGN.md §8
 # still reports `no-failing-input-found`.
 _CORE = ["MainFile", "GitFile", "GitBin", "ObjIter", "BatchObjIter", "RefIter", "ObjResolver", "Graph", "SizesFile",
          "CountsFile", "Tree", "Commit", "Tag", "ObjHeadIter", "BatchHeader", "Reference", "Oid", "ExplicitRoot"]
-_REFS = ["RefGroupBuilder", "FilterValue", "FilterGroupValue", "Grouper", "ShowRefGrouper", "RefFilter", "RefGroup", "Gitconfig"]
+_REFS = ["RefGroupBuilder", "FilterValue", "FilterGroupValue", "Grouper", "ShowRefGrouper", "RefFilter", "RefGroup", "Gitconfig", "RefIter"]
 _OUT = ["Output", "Footnotes", "Human", "PathResolver"]
 _OPT = ["MainFile", "NegatedBool", "Gitconfig", "IsattyEnabled", "IsattyDisabled"]
 _PARSE = ["Tree", "Commit", "Tag", "ObjHeadIter", "BatchHeader", "Reference", "Oid"]
